@@ -32,7 +32,7 @@ func checkC05(c *Check) {
 		p.AllFuncs([]*packagesPkg{pk}, func(fi *FuncInfo) {
 			ast.Inspect(fi.Decl.Body, func(n ast.Node) bool {
 				if call, ok := n.(*ast.CallExpr); ok && pred(fi.Info(), call) {
-					out[fi.Obj.Name()]++
+					out[refName(fi.Obj)]++
 				}
 				return true
 			})
@@ -169,7 +169,7 @@ func checkC05(c *Check) {
 			// no other function stores the levels
 			other := ""
 			p.AllFuncs([]*packagesPkg{pk}, func(fi *FuncInfo) {
-				if fi.Obj.Name() == "attemptMX" {
+				if refName(fi.Obj) == "attemptMX" {
 					return
 				}
 				ast.Inspect(fi.Decl.Body, func(n ast.Node) bool {
